@@ -31,12 +31,17 @@ CONSTANTS
   Targets,     \* subset of Senders a client may name as destination
   DnsPort,     \* subset of Senders whose port is 53
   Allowed,     \* subset of Targets accepted by the targetIPValidator
+  Unsendable,  \* subset of Allowed to which the outbound socket's WriteTo FAILS (e.g. port 0: EINVAL) - a fault that
+               \*   must leave the association, its deadline and its socket as they are
+  DisarmFirst, \* TRUE = the code: onWrite disarms the fast-close latch BEFORE it extends the deadline; FALSE = the two
+               \*   steps swapped (negative control: a port-53 reply read in between then moves the deadline earlier)
   Fam,         \* [Senders -> {"v4","v6","zoned"}]
   DgAlpha,     \* datagrams clients may send: set of [c, k, hdr, dst, cls]; k = 0: authenticates under no configured
                \*   key (unknown key / truncated / garbage); hdr = FALSE: malformed address header;
                \*   cls \in {"0","1","1000","max"} payload size class
   RpAlpha,     \* datagrams senders may send to an association's socket: set of [s, cls],
                \*   cls \in {"0","1","1000","fit","fit1","big"}
+  MidAlpha,    \* datagrams that may arrive at an association's socket while the Handle loop is inside WriteTo for it
   Sync,        \* TRUE: the environment acts only when the proxy is quiescent (behaviours for step-synchronous drivers)
   T, DNST,     \* configured NAT timeout, DNS timeout (17 s) in clock units
   Ticks,       \* possible clock advances
@@ -100,7 +105,7 @@ Init ==
   /\ klist = InitList /\ lastIP = [k \in Keys |-> 0]
   /\ nat = [c \in Clients |-> 0]
   /\ as = [a \in 1..MaxAssoc |-> FreeAssoc] /\ nas = 0
-  /\ h = [pc |-> "read", d |-> NoD, a |-> 0]
+  /\ h = [pc |-> "read", d |-> NoD, a |-> 0, fw |-> FALSE]
   /\ inC = <<>> /\ inT = [a \in 1..MaxAssoc |-> <<>>]
   /\ now = 0 /\ closing = FALSE /\ crashed = FALSE
   /\ sentC = <<>> /\ sentS = <<>> /\ outT = <<>> /\ mlogH = <<>>
@@ -145,6 +150,20 @@ SenderSend(s, a, cls) ==
        /\ tr' = Append(tr, [a |-> "TReply", src |-> s, to |-> as[a].c, as |-> a, cls |-> cls])
   /\ UNCHANGED <<klist, lastIP, nat, as, nas, h, inC, now, closing, crashed, sentC, outT, outC, mlogH, mlogG, conn>>
 
+\* a datagram reaches the socket of association a while the Handle loop is INSIDE natconn.WriteTo for that association
+\* (between the two steps of onWrite).  Allowed also under Sync: the virtual-time harness realises exactly this schedule
+\* with a gate inside the fake conn's SetReadDeadline.
+SenderSendMid(s, a, cls) ==
+  /\ Len(sentS) < MaxRp
+  /\ h.pc = "send" /\ h.a = a
+  /\ as[a].st = "used" /\ as[a].open /\ as[a].pc = "read" /\ inT[a] = <<>>
+  /\ LET r == [id |-> Len(sentS) + 1, src |-> s, a |-> a, sz |-> RSz(cls, as[a].key, s),
+               nw |-> Len(SelectSeq(outT, LAMBDA e : e.a = a)), t |-> now, fits |-> TRUE] IN
+       /\ sentS' = Append(sentS, r)
+       /\ inT' = [inT EXCEPT ![a] = Append(@, r)]
+       /\ tr' = Append(tr, [a |-> "TReplyMid", src |-> s, to |-> as[a].c, as |-> a, cls |-> cls])
+  /\ UNCHANGED <<klist, lastIP, nat, as, nas, h, inC, now, closing, crashed, sentC, outT, outC, mlogH, mlogG, conn>>
+
 \* the listener is closed; the kernel drops what was queued
 CloseListener ==
   /\ ~closing /\ EnvOK
@@ -162,7 +181,7 @@ Tick(d) ==
    Steps that touch only goroutine-local state are merged into the next step that touches shared state
    (they commute with everything else): ReadFrom+Get; decrypt+validate(+report on failure); WriteTo+report. *)
 HU == <<inT, now, closing, crashed, sentC, sentS, outC, mlogG, tr>>   \* never changed by the Handle loop
-HIdleRec == [pc |-> "read", d |-> NoD, a |-> 0]
+HIdleRec == [pc |-> "read", d |-> NoD, a |-> 0, fw |-> FALSE]
 \* did: the datagram being handled when the call was made
 MEv(ev, a, c, key, st, x, y, did) == [ev |-> ev, a |-> a, c |-> c, key |-> key, st |-> st, x |-> x, y |-> y, did |-> did, t |-> now]
 CSEv(d, found) == MEv("CS", 0, d.c, 0, IF found THEN "true" ELSE "false", 0, 0, d.id)
@@ -173,7 +192,7 @@ PktCEv(d, a, st, ptb) == MEv("PktC", a, d.c, as[a].key, st, WireFromClient(d), p
 H_RecvLookup ==
   /\ h.pc = "read" /\ inC # <<>>
   /\ LET d == Head(inC) IN
-       h' = [pc |-> IF nat[d.c] = 0 THEN "trial" ELSE "decrypt", d |-> d, a |-> nat[d.c]]
+       h' = [pc |-> IF nat[d.c] = 0 THEN "trial" ELSE "decrypt", d |-> d, a |-> nat[d.c], fw |-> FALSE]
   /\ inC' = Tail(inC)
   /\ UNCHANGED <<klist, lastIP, nat, as, nas, outT, mlogH, conn>> /\ UNCHANGED HU
 
@@ -229,30 +248,42 @@ H_Open ==
        /\ h' = [h EXCEPT !.a = a, !.pc = "latch"]
   /\ UNCHANGED <<klist, lastIP, inC, outT, conn>> /\ UNCHANGED HU
 
-\* :264-272 onWrite, first half: the fast-close latch is consumed unless this is the first write and it is DNS
-H_Latch ==
+\* natconn.onWrite (:264-285) is two steps on shared state: (D) the fast-close latch is consumed unless this is the first
+\* write and it is DNS (:267-272, sync.Once), (E) the deadline is extended - it only ever moves later (:274-284).  The code
+\* does D then E.  Between the two the association's goroutine may read a datagram (onRead).
+Disarm(asv, a, d, first) == [asv EXCEPT ![a].armed = IF IsDns(d.dst) /\ first THEN @ ELSE FALSE]
+NewDl(d) == now + (IF IsDns(d.dst) THEN DNST ELSE T)
+Extend(asv, a, d) == LET nd == NewDl(d) IN
+                       IF nd > asv[a].rd THEN [asv EXCEPT ![a].rd = nd, ![a].dl = IF asv[a].open THEN nd ELSE @] ELSE asv
+ExtendOps(a, d) == IF NewDl(d) > as[a].rd THEN <<COp("dl", NewDl(d), "write", d.dst)>> ELSE <<>>
+
+H_OnWrite1 ==
   /\ h.pc = "latch"
   /\ LET a == h.a
-         keep == IsDns(h.d.dst) /\ as[a].rd = -1 IN
-       /\ as' = [as EXCEPT ![a].armed = IF keep THEN @ ELSE FALSE]
-       /\ h' = [h EXCEPT !.pc = "send"]
-  /\ UNCHANGED <<klist, lastIP, nat, nas, inC, outT, mlogH, conn>> /\ UNCHANGED HU
+         first == as[a].rd = -1 IN          \* isFirstWrite is read at the start of onWrite
+       /\ h' = [h EXCEPT !.pc = "send", !.fw = first]
+       /\ IF DisarmFirst
+            THEN /\ as' = Disarm(as, a, h.d, first)
+                 /\ UNCHANGED conn
+            ELSE /\ as' = Extend(as, a, h.d)
+                 /\ conn' = [conn EXCEPT ![a] = @ \o ExtendOps(a, h.d)]
+  /\ UNCHANGED <<klist, lastIP, nat, nas, inC, outT, mlogH>> /\ UNCHANGED HU
 
-\* :274-284 onWrite, second half (the deadline only ever moves later); :298 WriteTo on the outbound socket;
-\* :213-220 AddPacketFromClient
+\* second step of onWrite; :298 WriteTo on the outbound socket (it may FAIL: destination in Unsendable, or the socket was
+\* closed by a teardown in the meantime - then nothing else changes); :213-220 AddPacketFromClient
 H_Send ==
   /\ h.pc = "send"
   /\ LET a == h.a
          d == h.d
-         nd == now + (IF IsDns(d.dst) THEN DNST ELSE T)
-         later == nd > as[a].rd
-         up == as[a].open IN
-       /\ as' = [as EXCEPT ![a].rd = IF later THEN nd ELSE @, ![a].dl = IF later /\ up THEN nd ELSE @]
-       /\ conn' = [conn EXCEPT ![a] = @ \o (IF later THEN <<COp("dl", nd, "write", d.dst)>> ELSE <<>>)
-                                        \o (IF up THEN <<COp("wr", -1, "", d.dst)>> ELSE <<>>)]
-       /\ outT' = IF up THEN Append(outT, [did |-> d.id, a |-> a, sock |-> a, dst |-> d.dst, sz |-> d.sz, p |-> d.id, ts |-> now, t |-> now])
-                  ELSE outT      \* the association was torn down in the meantime: write on a closed socket
-       /\ mlogH' = Append(mlogH, IF up THEN PktCEv(d, a, "OK", d.sz) ELSE PktCEv(d, a, "ERR_WRITE", 0))
+         up == as[a].open
+         ok == up /\ d.dst \notin Unsendable
+         as2 == IF DisarmFirst THEN Extend(as, a, d) ELSE Disarm(as, a, d, h.fw) IN
+       /\ as' = as2
+       /\ conn' = [conn EXCEPT ![a] = @ \o (IF DisarmFirst THEN ExtendOps(a, d) ELSE <<>>)
+                                        \o (IF ok THEN <<COp("wr", -1, "", d.dst)>> ELSE IF up THEN <<COp("we", -1, "", d.dst)>> ELSE <<>>)]
+       /\ outT' = IF ok THEN Append(outT, [did |-> d.id, a |-> a, sock |-> a, dst |-> d.dst, sz |-> d.sz, p |-> d.id, ts |-> now, t |-> now])
+                  ELSE outT
+       /\ mlogH' = Append(mlogH, IF ok THEN PktCEv(d, a, "OK", d.sz) ELSE PktCEv(d, a, "ERR_WRITE", 0))
        /\ h' = HIdleRec
   /\ UNCHANGED <<klist, lastIP, nat, nas, inC>> /\ UNCHANGED HU
 
@@ -265,7 +296,7 @@ H_NatClose ==
   /\ h' = [h EXCEPT !.pc = "returned"]
   /\ UNCHANGED <<klist, lastIP, nat, nas, inC, outT, mlogH>> /\ UNCHANGED HU
 
-HandleStep == H_RecvLookup \/ H_Trial \/ H_Decrypt \/ H_Open \/ H_Latch \/ H_Send \/ H_NatClose
+HandleStep == H_RecvLookup \/ H_Trial \/ H_Decrypt \/ H_Open \/ H_OnWrite1 \/ H_Send \/ H_NatClose
 
 (* -------------- association goroutine (udp.go:362-368, 391-461) -------------- *)
 GU == <<klist, lastIP, nas, h, inC, now, closing, sentC, sentS, outT, mlogH, tr>>   \* never changed by these goroutines
@@ -331,6 +362,7 @@ AssocStep(a) == G_Read(a) \/ G_Relay(a) \/ G_Expire(a) \/ G_Del(a) \/ G_Close(a)
 (* ------------------------------- next-state ------------------------------- *)
 Env == \/ \E x \in DgAlpha : ClientSend(x.c, x.k, x.hdr, x.dst, x.cls)
        \/ \E x \in RpAlpha, a \in 1..MaxAssoc : SenderSend(x.s, a, x.cls)
+       \/ \E x \in MidAlpha, a \in 1..MaxAssoc : SenderSendMid(x.s, a, x.cls)
        \/ CloseListener
        \/ \E d \in Ticks : Tick(d)
 
@@ -389,7 +421,7 @@ AtRest == Sync /\ Quiet
 Gone(a) == a # 0 /\ RemsOf(a) # <<>>
 GoneBy(a, t) == a # 0 /\ \E m \in Range(RemsOf(a)) : m.t < t + Slack
 \* (a datagram sent while its association is being torn down carries no obligation either way)
-MustForward(d) == Valid(d) /\ (d.la = 0 \/ (~GoneBy(d.la, d.t) /\ Added(d.la) /\ AddOf(d.la).key = d.k))
+MustForward(d) == Valid(d) /\ d.dst \notin Unsendable /\ (d.la = 0 \/ (~GoneBy(d.la, d.t) /\ Added(d.la) /\ AddOf(d.la).key = d.k))
 FwdComplete == AtRest => \A d \in Range(sentC) : MustForward(d) => \E e \in Range(outT) : e.did = d.id
 ReplyComplete == AtRest => \A r \in Range(sentS) :
                    (r.fits /\ ~closing /\ ~(\E m \in Range(RemsOf(r.a)) : m.t < r.t + Slack)) => \E x \in Range(outC[r.a]) : x.sid = r.id
@@ -456,6 +488,8 @@ FastCloseRule == \A a \in AIds : LET co == conn[a] IN
                           /\ co[i].dl = co[i].t /\ i > 1 /\ co[i - 1].op = "rd" /\ IsDns(co[i - 1].x)
                           /\ NRd(co, i - 1) = 0
                           /\ NWr(co, i) <= 1 /\ \A j \in 1..(i - 1) : co[j].op = "wr" => IsDns(co[j].x)
+                          \* ... and the deadline of a second datagram had not been set: the deadline never moves earlier
+                          /\ Cardinality({j \in 1..(i - 1) : co[j].op = "dl" /\ co[j].why = "write"}) <= 1
                      /\ (co[i].op = "rd" /\ IsDns(co[i].x) /\ NRd(co, i) = 0 /\ NWr(co, i) = 1
                           /\ ~(h.pc = "send" /\ h.a = a)      \* no datagram in flight to this association
                           /\ (\E j \in 1..(i - 1) : co[j].op = "wr" /\ IsDns(co[j].x))
